@@ -17,10 +17,18 @@
 open Model
 open Conv
 
-(* Which coalesce_entries the implementation is compared with: false = patronus-dse as it is
-   (delete list in discovery order), true = with `delete_list.sort_unstable()` before
-   delete_entries.  FLIP THIS (and drop the finding coalesce:overlap) when that fix is committed in /repo. *)
+(* Which variant of patronus-dse the implementation is compared with (model = Model.vstep repairs debug coalesce_fixed):
+   coalesce_fixed    /repo e25c4dc `delete_list.sort_unstable()` in coalesce_entries            (committed)
+   repair_traversal  patches/C20-1  bottom_up_multi_pat remembers how many children it pushed
+   repair_closures   patches/C20-2  expr_to_guard descends into boolean connectives only
+   repair_assert     patches/C20-3  apply_bin_op's second debug_assert accepts false-guard leftovers
+   FLIP a constant to true when the corresponding patch is committed in /repo, and turn the matching
+   `finding:` line of known_findings.txt into a `fixed:` line (see patches/C20-README.txt). *)
 let coalesce_fixed = true
+let repair_traversal = false
+let repair_closures = false
+let repair_assert = false
+let repairs_in_repo = { r_traversal = repair_traversal; r_closures = repair_closures; r_assert = repair_assert }
 
 let rec nat_of_int (i : int) : nat = if i <= 0 then O else S (nat_of_int (i - 1))
 let rec int_of_nat = function O -> 0 | S k -> 1 + int_of_nat k
@@ -127,7 +135,7 @@ let handle (x : Sexp.t) : string =
            let kind = Sexp.atom (List.hd (Sexp.list sx)) in
            (* ---- model ---- *)
            let op = to_op sx in
-           let mres = match !st with Some s -> (match vstep debug coalesce_fixed s op with Ok s' -> Some s' | Panic -> None) | None -> None in
+           let mres = match !st with Some s -> (match vstep repairs_in_repo debug coalesce_fixed s op with Ok s' -> Some s' | Panic -> None) | None -> None in
            (match ir, mres with
             | IPanic, None -> ()
             | IPanic, Some _ -> note_diff (Printf.sprintf "step %d (%s): implementation panics at %s, model does not" stepno kind panicloc)
